@@ -243,7 +243,8 @@ def main():
     ck.exhaustive = True
     ck.log("model: %s, %d configurations" % (r, len(states)))
     for v in r.violated:
-        ck.violation("model:FeatureAlgebra:" + v, {"tlc": r.out[-1500:] if len(r.out) < 10 ** 7 else ""})
+        if v != "<assumption>":   # declared-vs-derived powers belong to C03
+            ck.violation("model:FeatureAlgebra:" + v, {"tlc": r.out[-1500:] if len(r.out) < 10 ** 7 else ""})
     for cfg, attr in states:
         check_state(ck, cfg, attr)
     ck.traces = len(states)
